@@ -443,6 +443,9 @@ func (sim) Generate(prop, tier string, seed uint64) *core.Plan {
 		p.Cfg[fmt.Sprintf("out.%d", i)] = int64(v)
 	}
 	g.buildPools()
+	if r.Chance(1, 3) {
+		p.Cfg["crash"] = 1 // power loss during commits, disk-level (crash.go)
+	}
 
 	committed := dbmodel.NewBucket()
 	group := 0
@@ -460,6 +463,15 @@ func (sim) Generate(prop, tier string, seed uint64) *core.Plan {
 				b := committed.Walk(path)
 				k := g.pickKey(b, 50, 30, 0)
 				p.Ops = append(p.Ops, core.Op{K: "romut", T: group, S: []string{g.encParts(path), g.enc(k)}, A: []int64{int64(r.Intn(2))}})
+				group++
+			}
+		}
+		if p.Cfg["crash"] == 1 && r.Chance(1, 4) {
+			// power loss at the k-th disk event of a commit
+			p.Ops = append(p.Ops, core.Op{K: "crashtx", T: group, A: []int64{int64(r.Range(1, 9)), int64(r.Range(1, 24)), int64(r.Range(8, 300)), int64(group)}})
+			group++
+			if r.Chance(1, 3) {
+				p.Ops = append(p.Ops, core.Op{K: "durable", T: group})
 				group++
 			}
 		}
